@@ -51,7 +51,7 @@ func c02Profiles(tier string) []Profile {
 		d = 6
 	}
 	keys := [][]byte{kA, kB}
-	p := &SeqProfile{Name: "durable", Keys: keys, Depth: d, Init: initX, Mon: harness.Monitors{Durable: true},
+	p := &SeqProfile{Name: "durable", Keys: keys, Depth: d, Init: initX, Mon: harness.Monitors{Durable: true}, MapOrders: true,
 		Letters: storeLetters(true, true)}
 	// Flush beside the (single) mutating goroutine: what it persists must be a
 	// state the store really had during the call
